@@ -602,11 +602,101 @@ def run(ctx, prop):
         c = next((x for x in good if x.op == k), None)
         if c is None or oracle(c) is None:
             ctx.notes.append(f"known finding {fid} did not reproduce on this tree")
+    if not ctx.replay:
+        from vlib.core import REPO
+        for fn, header, frag in source_shape(REPO)[:3]:
+            ctx.count("source-shape-mismatch")
+            ctx.violation("correspondence",
+                          f"{fn}: {header.strip()}…) no longer has the shape the model mirrors (expected, in order, /{frag}/)",
+                          signature={"kind": "source-shape", "func": header, "fragment": frag},
+                          replay={"file": fn, "function": header, "missing": frag,
+                                  "correspondence": "textual guard for code facts no schedule can probe (Model/SubProto.lean)"},
+                          no_input=True)
     if cases and len(good) * 2 < len(cases):
         ctx.violation("correspondence", "harness could not drive most schedules (see notes)",
                       signature={"kind": "harness-unusable"}, replay={"notes": ctx.notes[:5]}, no_input=True)
     if not proofs_ok:
         ctx.proof_broken()
+
+
+# ------------------------------------------------------------------------------------------ source shape
+# The interleavings that need a goroutine switch between two lock regions of one call cannot be forced by the
+# harness; for those the model is the only witness, so the few code facts the model (and the proofs) rest on and
+# that no schedule can probe are checked textually: fragments that must occur, in this order, in a function body.
+SHAPE = [
+    ("client.go", "func (c *Client) close(", [
+        r"c\.mu\.Lock\(\)", r"if c\.status == statusClosed \{", r"c\.status = statusClosed",
+        r"for channel, channelContext := range c\.channels", r"c\.mu\.Unlock\(\)", r"c\.node\.removeClient\(c\)",
+        r"c\.presenceMu\.Lock\(\)", r"c\.unsubscribe\(channel, unsubscribeDisconnect, &disconnect\)"]),
+    ("client.go", "func (c *Client) commitSubscription(", [
+        r"c\.mu\.Lock\(\)", r"resv\.subGen == ctx\.subGen", r"if reservationLost \{", r"if c\.status == statusClosed \{",
+        r"delete\(c\.channels, channel\)", r"c\.node\.removeSubscription\(channel, c, ctx\.subGen\)",
+        r"c\.removeSubscribePresence\(channel, ctx\.flags\)", r"close\(subscribingCh\)",
+        r"ctx\.subscribingCh = nil", r"c\.channels\[channel\] = ctx", r"c\.mu\.Unlock\(\)"]),
+    ("client.go", "func (c *Client) onSubscribeErrorGen(", [
+        r"c\.mu\.Lock\(\)", r"owns := ok && chCtx\.subGen == expectGen", r"delete\(c\.channels, channel\)", r"c\.mu\.Unlock\(\)",
+        r"c\.node\.removeSubscription\(channel, c, expectGen\)", r"close\(subscribingCh\)"]),
+    ("client.go", "func (c *Client) unsubscribe(", [
+        r"c\.mu\.RLock\(\)", r"targetSubGen := chCtx\.subGen", r"c\.mu\.RUnlock\(\)",
+        r"if ok && !serverSide && !isSubscribed && subscribingCh != nil \{", r"case <-subscribingCh:", r"case <-tm\.C:",
+        r"c\.mu\.Lock\(\)", r"exists && currentChCtx\.subGen == targetSubGen", r"delete\(c\.channels, channel\)",
+        r"c\.mu\.Unlock\(\)", r"if !removedNow \{", r"c\.node\.removePresence\(channel, c\.uid, c\.user\)",
+        r"c\.node\.publishLeave\(channel, info\)", r"c\.node\.removeSubscription\(channel, c, removedSubGen\)"]),
+    ("client.go", "func (c *Client) Subscribe(", [
+        r"c\.mu\.Lock\(\)", r"if c\.status == statusClosed \{", r"if _, ok := c\.channels\[channel\]; ok \{",
+        r"subGen := c\.subGenCounter\.Add\(1\)", r"c\.mu\.Unlock\(\)", r"c\.subscribeCmd\(", r"c\.commitSubscription\(",
+        r"close\(subscribingCh\)", r"c\.publishJoinAndPresence\("]),
+    ("client.go", "func (c *Client) validateSubscribeRequest(", [
+        r"_, ok := c\.channels\[channel\]", r"subGen := c\.subGenCounter\.Add\(1\)", r"subscribingCh: make\(chan struct\{\}\)"]),
+    ("hub.go", "func (s *subShard) removeSub(", [
+        r"s\.mu\.Lock\(\)", r"if subGen != anySubGen && sub\.subGen != subGen \{", r"delete\(s\.subs\[ch\], uid\)", r"\.Dec\(\)"]),
+    ("hub.go", "func (s *subShard) addSub(", [
+        r"s\.mu\.Lock\(\)", r"if _, exists := s\.subs\[ch\]\[uid\]; !exists \{", r"\.Inc\(\)", r"s\.subs\[ch\]\[uid\] = sub"]),
+    ("node.go", "func (n *Node) addSubscription(", [
+        r"mu := n\.subLock\(ch\)", r"n\.hub\.addSub\(ch, sub\)", r"n\.getBroker\(ch\)\.Subscribe\(ch\)",
+        r"n\.hub\.removeSub\(ch, sub\.client, sub\.subGen\)"]),
+]
+
+
+def go_func_body(src, header):
+    i = src.find(header)
+    if i < 0:
+        return None
+    j = src.find("{\n", i)
+    depth, k = 0, j
+    while k < len(src):
+        if src[k] == "{":
+            depth += 1
+        elif src[k] == "}":
+            depth -= 1
+            if depth == 0:
+                return src[j:k + 1]
+        k += 1
+    return None
+
+
+def source_shape(repo):
+    """list of (file, function, missing fragment) — empty when the code still has the shape the model mirrors"""
+    bad = []
+    cache = {}
+    for fn, header, frags in SHAPE:
+        if fn not in cache:
+            try:
+                cache[fn] = open(os.path.join(repo, fn)).read()
+            except OSError:
+                cache[fn] = ""
+        body = go_func_body(cache[fn], header)
+        if body is None:
+            bad.append((fn, header, "<function not found>"))
+            continue
+        pos = 0
+        for fr in frags:
+            m = re.compile(fr).search(body, pos)
+            if not m:
+                bad.append((fn, header, fr))
+                break
+            pos = m.end()
+    return bad
 
 
 def reject_event(m):
